@@ -1073,9 +1073,158 @@ class AutoDetect(Obligation):
     any_violation_confirms = True
 
 
+# ---------------------------------------------------------------------------
+# L5: the reader's mask rule -- a cell is masked iff it holds the missing code
+# ---------------------------------------------------------------------------
+class MaskRule(Obligation):
+    encoding_fragile = True
+    name = 'reader-mask-rule[x = m + d/100]'
+    alt_models = 6
+    bounds = {'missing code m': 'integer, 1 <= |m| <= 99999',
+              'cell value x': 'm + d/100, |d| <= 10**6 (at most 7 '
+              'significant digits: survives the %.6e data format exactly)'}
+    mode = 'int'
+    validate_paths = 3
+    stubs = ('the per-variable loop body of ffi1001.__init__ up to the '
+             'variable creation, run on a one-cell column',)
+
+    def fallback_inputs(self):
+        return [{'m': -9999, 'd': 0}, {'m': -9999, 'd': -5},
+                {'m': -9999, 'd': 5}, {'m': 99999, 'd': 1}]
+
+    def _prep(self):
+        sp = loader.TwinSpace()
+        R = sp.twin(MOD)
+        rnode, path = loader.get_function_ast(MOD, 'ffi1001.__init__')
+        loops = [st for st in rnode.body if isinstance(st, ast.For) and
+                 _has_call(st, 'PseudoNetCDFVariable')]
+        if len(loops) != 1:
+            raise loader.HarnessError('ffi1001.__init__: variable loop not '
+                                      'found')
+        loop = loops[0]
+        body = []
+        target = None
+        for st in loop.body:
+            if _has_call(st, 'PseudoNetCDFVariable'):
+                # values=<name> handed to the variable
+                for n in ast.walk(st):
+                    if isinstance(n, ast.Call) and (
+                            (isinstance(n.func, ast.Name) and
+                             n.func.id == 'PseudoNetCDFVariable')):
+                        for kw in n.keywords:
+                            if kw.arg == 'values':
+                                target = kw.value
+                break
+            body.append(st)
+        if target is None:
+            raise loader.HarnessError('ffi1001.__init__: values= of the '
+                                      'variable not found')
+        import copy
+        import hashlib
+        stm = [ast.unparse(x) for x in body] + [ast.unparse(target)]
+        self._info = {'file': 'src/PseudoNetCDF/icarttfiles/ffi1001.py',
+                      'qualname': 'ffi1001.__init__ per-variable loop body',
+                      'statements': stm,
+                      'sha256': hashlib.sha256('\n'.join(stm).encode())
+                      .hexdigest()[:16]}
+        mod = ast.Module(body=[loader._Rewrite().visit(copy.deepcopy(x))
+                               for x in body], type_ignores=[])
+        ast.fix_missing_locations(mod)
+        ex = ast.Expression(body=loader._Rewrite().visit(
+            copy.deepcopy(target)))
+        ast.fix_missing_locations(ex)
+        names = [t.id for t in (loop.target.elts if isinstance(
+            loop.target, ast.Tuple) else [loop.target])]
+        return (sp, R, compile(mod, path + ':<maskrule>', 'exec'),
+                compile(ex, path + ':<values>', 'eval'), names)
+
+    def sym(self, ctx, h):
+        sp, R, code, vcode, names = self._prep()
+        self._space = sp
+        m = ctx.int('m', -99999, 99999)
+        ctx.assume(m.e != 0, check=False)
+        d = ctx.int('d', -10 ** 6, 10 ** 6)
+        x = symx.SymReal(z3.ToReal(m.e) + z3.ToReal(d.e) / 100)
+        col = sp.np.empty((1,), dtype=object)
+        col[0] = x
+        env = dict(R.__dict__)
+        env['__builtins__'] = sp.builtins
+        one = lambda v: [v]
+        env.update(scales=one(1.), missing=one(m), units=one('ppb'),
+                   data=one(col), llod_flags=one(-8888),
+                   llod_values=one('N/A'), ulod_flags=one(-7777),
+                   ulod_values=one('N/A'),
+                   self=type('S', (), {'variables': {}})())
+        env[names[0]] = 0
+        if len(names) > 1:
+            env[names[1]] = 'X_ppb'
+        try:
+            exec(code, env)
+            vals = eval(vcode, env)
+        except Exception as ex:
+            raise loader.HarnessError('loop body: %r' % (ex,))
+        import numpy as real_np
+        mk = real_np.ma.getmaskarray(vals).reshape(-1)
+        if mk.dtype == object:
+            mexpr = symx._b(mk[0])
+        else:
+            mexpr = z3.BoolVal(bool(mk[0]))
+        h.claim('masked-iff-code', mexpr == (d.e == 0))
+        h.observe('masked', bool(mk[0]) if mk.dtype != object else None)
+
+    def real(self, inputs):
+        import warnings
+        m = int(frac_of(inputs.get('m', -9999)))
+        d = int(frac_of(inputs.get('d', 0)))
+        if m == 0 or abs(m) > 99999:
+            m = -9999
+        x = m + d / 100.
+        viol = {}
+        tmp = tempfile.mkdtemp(prefix='verif_c19_')
+        path = os.path.join(tmp, 'k.ict')
+        got = None
+        try:
+            with warnings.catch_warnings():
+                warnings.simplefilter('ignore')
+                from PseudoNetCDF import PseudoNetCDFFile
+                from PseudoNetCDF.icarttfiles.ffi1001 import ffi1001, \
+                    ncf2ffi1001
+                f = PseudoNetCDFFile()
+                f.createDimension('POINTS', 3)
+                t = f.createVariable('Start_UTC', 'd', ('POINTS',))
+                t[:] = [0., 60., 120.]
+                t.units = 's'
+                v = f.createVariable('X_ppb', 'd', ('POINTS',),
+                                     fill_value=m)
+                v[:] = np.ma.MaskedArray([1.5, x, float(m)],
+                                         mask=[False, d == 0, True])
+                v.units = 'ppb'
+                v.missing_value = m
+                f.SDATE = '2004, 01, 10,'
+                f.WDATE = '2004, 01, 11'
+                f.INDEPENDENT_VARIABLE = 'Start_UTC'
+                try:
+                    ncf2ffi1001(f, path).close()
+                    g = ffi1001(path)
+                    got = np.ma.getmaskarray(g.variables['X_ppb'][:]).tolist()
+                    if got != [False, d == 0, True]:
+                        viol['masked-iff-code'] = 'code %d, cell %r: mask ' \
+                            'read back %r' % (m, x, got)
+                except Exception as ex:
+                    viol['masked-iff-code:raised'] = repr(ex)[:200]
+        finally:
+            for fn in os.listdir(tmp):
+                os.remove(os.path.join(tmp, fn))
+            os.rmdir(tmp)
+        return {'obs': {'masked': None if got is None else got[1]},
+                'violations': viol, 'm': m, 'x': x}
+
+    any_violation_confirms = True
+
+
 def obligations(tier):
     vs = (2, 3) if tier == 'quick' else (2, 3, 4, 6)
-    return [Layout(), MissingCode()] + [RecordTable(v) for v in vs] + [AutoDetect()]
+    return [Layout(), MissingCode()] + [RecordTable(v) for v in vs] + [AutoDetect(), MaskRule()]
 
 
 def region_over7(inputs):
